@@ -62,7 +62,24 @@ HostileOK(e) ==
   /\ PrefixMatches(e.res, ds.vals, 1)                           \* SoundOnValid
   /\ (ds.st = "complete" => Len(e.res) = Len(ds.vals) + 1 /\ e.res[Len(e.res)] = Eof)
 
+(* C02: a stream of canonical encodings delivered in the logged chunks.      *)
+RECURSIVE Sum(_, _)
+Sum(c, k) == IF k > Len(c) THEN 0 ELSE c[k] + Sum(c, k + 1)
+RECURSIVE EndsOK(_, _, _, _)
+EndsOK(b, ends, i, k) == k > Len(ends) \/ LET r == Dec(b, i) IN
+                           r.ok /\ ends[k] = r.next - 1 /\ EndsOK(b, ends, r.next, k + 1)
+
+ChunkedOK(e) ==
+  LET ds == DecStream(e.stream) IN
+  /\ ds.st = "complete"                          \* the driver sent a valid stream
+  /\ Sum(e.chunks, 1) = Len(e.stream)            \* ... split into these reads
+  /\ e.res = ds.vals \o <<Eof>>                  \* exactly those values, in order, then end of stream
+  /\ Len(e.ends) = Len(ds.vals)
+  /\ EndsOK(e.stream, e.ends, 1, 1)              \* each value consumed exactly its own bytes
+  /\ e.left = 0                                  \* nothing left behind
+
 Check(e) == CASE e.ev = "rt"      -> RoundTripOK(e)
+              [] e.ev = "chunked" -> ChunkedOK(e)
               [] e.ev = "float"   -> FloatOK(e)
               [] e.ev = "hostile" -> HostileOK(e)
               [] OTHER            -> FALSE
